@@ -154,7 +154,7 @@ func Merge[T any](remoteWrite bool, s1 []T, s2 []T) ([]T, bool) {
 		s1ItemHash := hashKey(s1Item)
 		s2Item, exist := m2[s1ItemHash]
 		writeAllowed := writeAllowed(s1Item)
-		if !writeAllowed && remoteWrite {
+		if exist && !writeAllowed && remoteWrite {
 			success = false
 		}
 		// if exists and overwriting is allowed
@@ -176,9 +176,13 @@ func Merge[T any](remoteWrite bool, s1 []T, s2 []T) ([]T, bool) {
 	for _, s2Item := range s2 {
 		s2ItemHash := hashKey(s2Item)
 		_, exist := m1[s2ItemHash]
-		if !exist && !remoteWrite {
-			// only local updates can append data
-			result = append(result, s2Item)
+		if !exist {
+			if remoteWrite {
+				// only local updates can append data, a remote write naming an unknown item fails
+				success = false
+			} else {
+				result = append(result, s2Item)
+			}
 		}
 	}
 
